@@ -183,7 +183,7 @@ def scale(cell):
     spec = DRIVERS[drv]
     shot = make_shot(spec)
     calc = make_calc()
-    st = {'R': R, 'R/2': R / 2, 'R/3': R / 3, 'none': None, '0.5': 0.5, '0.7': 0.7, 'R/7': R / 7}[stname]
+    st = {'R': R, 'R/2': R / 2, 'R/3': R / 3, 'none': None, '0.5': 0.5, '0.7': 0.7, 'R/7': R / 7, 'R/10': R / 10}[stname]
     R_eff = Unit.Foot(R) >> Unit.Foot
     s_eff = (Unit.Foot(st) >> Unit.Foot) if st else R_eff / 10
     if s_eff < MAX_STEP or s_eff > R_eff:
@@ -286,6 +286,15 @@ def plan(tier):
                     for ts in (1e-12, 1e-4, 1e-3, 1e-2):
                         for extra in (False, True):
                             sc.append([d, R, stn, ts, extra])
+    # time steps chosen relative to the flight time of one record interval at the muzzle (k x step / mv): with k > 1 the first intervals are
+    # shorter than the time step and later ones (slower bullet) longer
+    for d in (('nowind', 'tail60slow') if tier == 'quick' else DRIVERS):
+        mv = dict(BASE, **DRIVERS[d])['mv']
+        for R in (3000.0,) if tier == 'quick' else (3000.0, 1500.0):
+            for stn, st in (('R/10', R / 10), ('R/3', R / 3)):
+                for k in (0.5, 1.1, 1.5, 2.5):
+                    sc.append([d, R, stn, k * st / mv, False])
+                    sc.append([d, R, stn, k * st / mv, True])
     depth = 7 if tier == 'quick' else 10
     fl = [[list(p), rsm, depth, 0.0] for p in itertools.product((0.75, 1.0, 1.25), repeat=2) for rsm in (2.0, 2.5, 4.0)]
     fl += [[list(p), rsm, min(depth, 8), ts] for p in itertools.product((0.75, 1.0, 1.25), repeat=2) for rsm in (2.0, 4.0)
